@@ -51,7 +51,7 @@ def fd_signature(ds, nfd):
     parts, body = [], []
     i = 0
     while i < nfd:
-        k = ds.weighted([5, 1.5, 1.5]) if nfd - i >= 2 else ds.weighted([5, 1, 1])
+        k = ds.weighted([5, 1.5, 1.5, 1, 1]) if nfd - i >= 2 else ds.weighted([5, 1, 1, 1, 1])
         if ds.flag(0.3):
             t = ds.pick(['i', 's', 'u', 'y'])
             parts.append(t)
@@ -65,9 +65,17 @@ def fd_signature(ds, nfd):
             parts.append('ah')
             body.append(idxs[i:i + n])
             i += n
-        else:
+        elif k == 2:
             parts.append('(ih)')
             body.append((7, idxs[i]))
+            i += 1
+        elif k == 3:
+            parts.append('a{sh}')
+            body.append([('k%d' % i, idxs[i])])
+            i += 1
+        else:
+            parts.append('v')
+            body.append(rc.V('h', idxs[i]))
             i += 1
     if ds.flag(0.3):
         parts.append('s')
@@ -86,9 +94,14 @@ def find_h(sig, body, plain):
         elif c == 'a':
             et = t[1:]
             if et[0] == '{':
+                kt, vt = rc.split_sig(et[1:-1])
+                for (k, r) in ref:
+                    walk(vt, r, got.get(k) if isinstance(got, dict) else None)
                 return
             for r, g in zip(ref, got):
                 walk(et, r, g)
+        elif c == 'v':
+            walk(ref.sig, ref.value, got)
         elif c == '(':
             for st, r, g in zip(rc.split_sig(t[1:-1]), ref, got):
                 walk(st, r, g)
@@ -135,8 +148,8 @@ def recv_side(ctx):
     prev_pos = 0
     counts = []
     for i in range(n):
-        nfd = ds.weighted([3, 4, 2, 1.5])
-        if nfd == 3:
+        nfd = ds.weighted([3, 4, 2, 1.5, 0.8])
+        if nfd >= 3:
             sim.probe('three-descriptors')
         counts.append(nfd)
         sig, body, idxs = fd_signature(ds, nfd) if nfd else (gen.signature(ds, 2), None, [])
